@@ -339,6 +339,12 @@ impl<K: Kind> Drop for SimArc<K> {
         }
         if s.panic_on_drop.get() && !std::thread::panicking() && !rt::is_aborting() {
             s.panic_on_drop.set(false);
+            let (lp, op) = rt::last_probe_and_op();
+            crate::marks::mark(format!(
+                "dtor-panic: in {} after probe {}",
+                crate::interp::OP_NAMES.get(op as usize).copied().unwrap_or("-"),
+                verif_rt::probes::NAMES.get(lp).copied().unwrap_or("-")
+            ));
             std::panic::resume_unwind(Box::new(UserPanic("destructor")));
         }
     }
